@@ -9,8 +9,12 @@ Tr == Traces[tid]
 HasEv == l <= Len(Tr.ev)
 Ev == Tr.ev[l]
 TInit == tid \in 1..Len(Traces) /\ l = 1 /\ kind = Traces[tid].kind /\ phase = "none" /\ saved = "nothing" /\ out = "ok" /\ op = "construct"
+\* FitRejected \/ FitFailsLate with the exception class left open (any class but "ok": what matters is where the object is left)
+FitFailed == Ev.out # "ok" /\ op' = "fit_fail" /\ phase' \in {phase, "untrained"} /\ UNCHANGED <<kind, saved>>
 Act == CASE Ev.op = "fit" -> Fit [] Ev.op = "fit_wrong_matrix" -> FitWrongMatrix [] Ev.op = "predict" -> Predict
          [] Ev.op = "propagate" -> Propagate [] Ev.op = "save" -> Save [] Ev.op = "load" -> Load
+         [] Ev.op = "fit_fail" -> FitFailed [] Ev.op = "learn" -> Learn [] Ev.op = "prune" -> Prune
+         [] Ev.op = "assign" -> Assign(Ev.phase)
 Step == HasEv /\ Act /\ out' = Ev.out /\ phase' = Ev.phase /\ l' = l + 1 /\ UNCHANGED tid
 TSpec == TInit /\ [][Step]_tvars
 ASSUME TLCSet(1, {}) /\ TLCSet(2, {})
